@@ -53,8 +53,8 @@ contract('message.Message.to_bytes', returns=Bytes, props=['C05', 'C07'],
              'C05:clear': 'implies(self.crypto is None, '
                           'result == enc_hdr(self, first_type(self.payloads), 28 + len(enc_chain(self.payloads, 0))) '
                           '+ enc_chain(self.payloads, 0))',
-             'C07:length': 'implies(self.crypto is not None, len(result) == 32 + len(sk_body(self)) + icv_len(self))',
+             'C05,C07:length': 'implies(self.crypto is not None, len(result) == 32 + len(sk_body(self)) + icv_len(self))',
              # the datagram is exactly: protected prefix | negotiated MAC over that prefix, truncated
-             'C07:icv': 'implies(self.crypto is not None, result == protected_prefix(self) '
+             'C05,C07:icv': 'implies(self.crypto is not None, result == protected_prefix(self) '
                         '+ hmac(self.crypto.integrity.hasher, self.crypto.sk_a, protected_prefix(self))[:icv_len(self)])',
          })
